@@ -222,7 +222,8 @@ def counter_case(draw):
     pool = draw(st.lists(_ITEM, min_size=ps, max_size=ps, unique_by=_ukey))
     n = draw(st.sampled_from([3, 1, 2, 0, 5, 8, 13, 20, 30, 45, 60]))
     items = draw(st.lists(st.sampled_from(pool), min_size=n, max_size=n))
-    return {'bound': bound, 'items': items}
+    # ints may arrive as numpy integer scalars (the cells of an int64 column's .values): equal to, and hashed like, the Python int
+    return {'bound': bound, 'items': items, 'numpy_ints': draw(st.sampled_from([False, False, True]))}
 
 
 def oracle_counter(case, rec):
@@ -232,8 +233,11 @@ def oracle_counter(case, rec):
     pc = PrimitiveConstrainedCounter(bound)
     true = Counter()
     seen = []
+    as_np = bool(case.get('numpy_ints'))
+    if as_np:
+        rec.cls('ints-as-numpy-scalars')
     for k, x in enumerate(items):
-        pc.add(x)
+        pc.add(np.int64(x) if as_np and isinstance(x, int) and -2 ** 63 <= x < 2 ** 63 and k % 2 == 0 else x)
         if _ukey(x) not in true:
             seen.append(x)
         true[_ukey(x)] += 1
@@ -250,7 +254,7 @@ def oracle_counter(case, rec):
             if exact and got != t:
                 raise Violation(f'{where}: fewer than bound distinct values seen but count({y!r})={got} != true {t}',
                                 kind='C15/counter-exact')
-        extra = [y for y in list(pc.default_counter) if _ukey(y) not in true]
+        extra = [y for y in list(pc.default_counter) if _ukey(int(y) if isinstance(y, np.integer) else y) not in true]
         if extra:
             raise Violation(f'{where}: counter holds values never added: {extra[:3]!r}', kind='C15/counter-overcount')
     rec.nt(len(seen) > bound, key=case)
